@@ -33,6 +33,31 @@ def plan(tier, seed):
 
 
 def make_case(seed, prop, shard, i, features):
+    prog, rows = _make_case(seed, prop, shard, i, features)
+    return _widen(prog, rows, random.Random(f"{seed}:{prop}:widen:{shard}:{i}"))
+
+
+def _widen(prog, rows, r2):
+    """two input classes drawn from a stream of their own (the generator's choices stay what they were)"""
+    # (a) amounts with three decimals (weights, rates): exact in binary, so sums are compared exactly
+    if r2.random() < 0.12:
+        cand = [row for row in rows[1:] if len(row) >= 2]
+        if cand:
+            r2.choice(cand)[r2.choice([0, 1])] = r2.choice(["0.125", "1.375", "2.625"])
+    # (b) an assignment from count(<bool>): unlike a bare count() it is not tied to the line matching; a later
+    #     component may read the variable
+    if r2.random() < 0.5:
+        for k, c in enumerate(prog["comps"]):
+            if c[0] == "assign" and c[4][0] == "fn" and c[4][1] == "count" and not c[4][2] and "onmatch" not in c[3]:
+                cond = r2.choice([["eq", ["hdr", "2"], ["str", "x"]], ["fn", "empty", [["hdr", "3"]], []], ["fn", "gt", [["hdr", "0"], ["int", 2]], []]])
+                prog["comps"][k] = ["assign", c[1], c[2], c[3], ["fn", "count", [cond], [f"cw{k}"]]]
+                if c[2] is None and len(prog["comps"]) < 6 and r2.random() < 0.6:
+                    prog["comps"].insert(r2.randint(k + 1, len(prog["comps"])), ["fn", "gt", [["var", c[1], None], ["int", 1]], []])
+                break
+    return prog, rows
+
+
+def _make_case(seed, prop, shard, i, features):
     r = random.Random(f"{seed}:{prop}:{shard}:{i}")
     g = lang.Gen(r, features)
     if r.random() < 0.22:
